@@ -263,3 +263,44 @@ def views_agree(ctx: Ctx) -> None:
     n += 1
     (ctx.ok if good else ctx.bad)(R, co, co.node, 'membership asks the tree' if good else 'IndexHierarchy.__contains__ does not ask the tree', key='IndexHierarchy.__contains__')
     ctx.require(n >= 12, 'index view methods')
+
+
+def ancestor_cache_invalidation(ctx: Ctx) -> None:
+    R = 'I.ancestor-cache-invalidation'
+    ctx.rule(R, 'IndexLevelGO caches its leaf count in _length, and the count of a node is the sum over its subtree: a mutator that descends the tree, records the '
+             'node visited at every depth and then grows one of the recorded nodes must reset _length on every recorded node (a loop over the whole recording, not a '
+             'selection of it); mutators that grow only self reset self._length', floor=2)
+    prog = ctx.prog
+    k = prog.cls('IndexLevelGO')
+    n = 0
+    for mname, f in k.methods.items():
+        grows = [c for c in ast.walk(f.node) if isinstance(c, ast.Call) and isinstance(c.func, ast.Attribute) and c.func.attr in ('append', 'extend')
+                 and isinstance(c.func.value, ast.Attribute) and c.func.value.attr in ('index', 'targets')]
+        if not grows:
+            continue
+        # recordings: A[<loop var>] = <node var> inside a loop
+        recs = {}
+        for lp in walk_local(f.node):
+            if isinstance(lp, ast.For):
+                for a in ast.walk(lp):
+                    if isinstance(a, ast.Assign) and isinstance(a.targets[0], ast.Subscript) and isinstance(a.targets[0].value, ast.Name) and isinstance(a.value, ast.Name):
+                        recs[a.targets[0].value.id] = a
+        resets_self = [a for a in walk_local(f.node) if isinstance(a, ast.Assign) and norm(a.targets[0]) == 'self._length' and isinstance(a.value, ast.Constant) and a.value.value is None]
+        grows_recorded = [c for c in grows if isinstance(c.func.value.value, ast.Name) and c.func.value.value.id != 'self']
+        n += 1
+        key = f'IndexLevelGO.{mname}'
+        if grows_recorded and recs:
+            ok = False
+            for lp in walk_local(f.node):
+                if isinstance(lp, ast.For) and isinstance(lp.iter, ast.Name) and lp.iter.id in recs and isinstance(lp.target, ast.Name):
+                    if any(isinstance(a, ast.Assign) and isinstance(a.targets[0], ast.Attribute) and a.targets[0].attr == '_length' and isinstance(a.targets[0].value, ast.Name)
+                           and a.targets[0].value.id == lp.target.id and isinstance(a.value, ast.Constant) and a.value.value is None for a in lp.body) \
+                            and not any(isinstance(x, (ast.Continue, ast.Break, ast.If)) for x in lp.body):
+                        ok = True
+            (ctx.ok if ok else ctx.bad)(R, f, grows_recorded[0], 'every node recorded on the descent has its cached length reset' if ok else
+                                        'a node below the root is grown but the cached _length is not reset on every node recorded along the descent: ancestors keep a stale leaf '
+                                        'count, so offsets and the rebuilt table disagree with the tree', key=key)
+        else:
+            ok = bool(resets_self)
+            (ctx.ok if ok else ctx.bad)(R, f, grows[0], 'self._length is reset after growing self' if ok else 'the tree grows but the cached _length of self is not reset', key=key)
+    ctx.require(n >= 2, 'IndexLevelGO mutators')
